@@ -33,8 +33,13 @@ Definition fetch (id held nonce : list Z) (shards : list share) (t : Z) : outcom
        end.
 
 (* receive_chunk / decrypt_chunk_with_manifest: Some plaintext iff the decryption hashes to the manifest's content hash *)
+(* validate_shards: a positive threshold, enough shards, and no index twice among the first `threshold` of them *)
+Definition validate_shards (m : manifest) : bool :=
+  negb ((m_threshold m <=? 0) || (zlen (m_shards m) <? m_threshold m))
+  && negb (has_dup (map s_index (firstn (Z.to_nat (m_threshold m)) (m_shards m)))).
+
 Definition receive (m : manifest) (ciphertext : list Z) : outcome (option (list Z)) :=
-  if (m_threshold m <=? 0) || (zlen (m_shards m) <? m_threshold m) then Val None
+  if negb (validate_shards m) then Val None
   else match combine (m_shards m) (m_threshold m) with
        | Throw e => Throw e
        | Val k =>
@@ -49,6 +54,19 @@ Definition receive (m : manifest) (ciphertext : list Z) : outcome (option (list 
      kind 0 none; 1 ciphertext byte pos ^= val; 2 hash byte; 3 nonce byte; 4 shard (pos / 32) value byte (pos mod 32);
      5 threshold := val; 6 shard pos gets the index of shard val; 7 ciphertext cut to pos bytes; 8 ciphertext extended by val
    output: held bytes, manifest (hash nonce t n shards), local fetch, then for the (tampered) replica: receive outcome *)
+(* the CLI's decrypt_chunk_with_manifest (src/main.cpp): the same, but with the threshold / count check only -- a manifest that
+   repeats an index makes Shamir::combine throw there (the command reports E_UNEXPECTED and exits 1) *)
+Definition receive_cli (m : manifest) (ciphertext : list Z) : outcome (option (list Z)) :=
+  if (m_threshold m <=? 0) || (zlen (m_shards m) <? m_threshold m) then Val None
+  else match combine (m_shards m) (m_threshold m) with
+       | Throw e => Throw e
+       | Val k =>
+           match decrypt_with_key k (m_id m) ciphertext (m_nonce m) with
+           | None => Val None
+           | Some p => if list_eqb (sha256 p) (m_hash m) then Val (Some p) else Val None
+           end
+       end.
+
 Definition xor_at (l : list Z) (pos val : Z) : list Z :=
   map (fun iv => if Z.of_nat (fst iv) =? pos then Z.lxor (snd iv) val else snd iv) (List.combine (seq 0 (length l)) l).
 Definition o_opt (o : outcome (option (list Z))) : list Z :=
@@ -109,6 +127,6 @@ Definition run (input : list Z) : list Z :=
          and the CLI's decrypt_chunk_with_manifest on the same manifest and bytes *)
       ++ [match receive m' c' with Val (Some _) => 1 | _ => 0 end]
       ++ o_opt (match receive m' c' with Val (Some p) => Val (Some p) | _ => Val None end)
-      ++ o_opt (receive m' c')
+      ++ o_opt (receive_cli m' c')
       ++ second
   end.
